@@ -109,6 +109,32 @@ class Container:
             yield item.id, item
 
 
+class BlockContainer(Container):
+    """
+    BlockContainer extends Container with a new __delitem__ method.
+    When a Block is deleted, everything it contains is deleted individually
+    to make sure all references to its content are removed: positions and
+    extents of a MultiTag and dimension links may refer to a DataArray or
+    DataFrame of another Block.
+    """
+    def __delitem__(self, item):
+        if not isinstance(item, Entity):
+            item = self[item]
+
+        if not isinstance(item, self._itemclass):
+            raise TypeError(
+                "Wrong item type: {} required or the name or ID of one".format(
+                    self._itemclass.__name__)
+            )
+
+        ids = [item.id]
+        for cname in ("data_arrays", "data_frames", "tags", "multi_tags",
+                      "groups"):
+            ids.extend(child.id for child in getattr(item, cname))
+        ids.extend(src.id for src in item.find_sources())
+        self._file._h5group.delete_all(ids)
+
+
 class SectionContainer(Container):
     """
     SectionContainer extends Container with a new __delitem__ method.
